@@ -388,6 +388,19 @@ def c01_roundtrip(seed, tier):
                 R.fail("clone-of-own-archive-%s" % c2, req_desc + " :: " + se2.decode(errors="replace")[-200:].replace("\n", " | "))
             elif got != src:
                 R.fail("roundtrip-output-differs-from-source", req_desc)
+            # ... and over what an earlier clone of another (longer / shorter) image left at the same path,
+            # with --force-create: exactly the source's length and bytes (with and without --verify-output)
+            if c2 == "ok" and len(src) < 300000:
+                for older in (rng.randbytes(len(src) + rng.randrange(1, 5000)), src[:len(src) // 2] + b"?"):
+                    outf = W.write(older, ".out")
+                    c5, rc5, so5, se5 = clone_cli(W, arch_path, outf, force=True, verify_output=rng.random() < 0.5)
+                    R.stat("clones_with_force_over_an_existing_file")
+                    if c5 != "ok":
+                        R.fail("clone-of-own-archive-%s" % c5, req_desc + " (--force-create over an existing %d byte file)" % len(older))
+                    elif read_file(outf) != src:
+                        R.fail("roundtrip-output-differs-from-source", req_desc + " (--force-create over an existing %d byte file: output has %d bytes, source %d)" % (
+                            len(older), len(read_file(outf)), len(src)))
+                    os.unlink(outf)
             # the archive records the true size and checksum: via `bita info`
             c3, rc3, so3, se3 = run_bita(["info", arch_path])
             text = (so3 + se3).decode(errors="replace")
@@ -1376,6 +1389,11 @@ def c02_seeds(seed, tier):
                     prior = prior + bytes(len(src) - len(prior) + rng.randrange(0, 50))
                 with open(outp, "wb") as f:
                     f.write(prior)
+            # not in place, but over what an earlier clone left there (longer than the source), with --force-create
+            over_older = (not in_place) and i % 4 == 1
+            if over_older:
+                with open(outp, "wb") as f:
+                    f.write(rng.randbytes(len(src) + rng.randrange(1, 3000)))
             seed_paths = [W.write(s, ".seed") for s in seeds]
             srv = None
             archive_arg = apath
@@ -1385,7 +1403,9 @@ def c02_seeds(seed, tier):
                 archive_arg = srv.url()
             verify = rng.random() < 0.3
             # --force-create next to --seed-output must change nothing (the prior output is still the seed)
-            force_too = in_place and i % 3 == 0
+            force_too = (in_place and i % 3 == 0) or over_older
+            if over_older:
+                R.stat("force_create_over_a_longer_file")
             cls, rc, so, se = clone_cli(W, archive_arg, outp, seeds=seed_paths, seed_output=in_place, stdin_seed=stdin_seed,
                                         blockdev=blockdev, verify_output=verify, force=force_too, strace_log=None if use_http else log)
             if force_too:
